@@ -72,7 +72,10 @@ let register_c13 reg =
     | _ -> failwith "jitter: arity");
   reg "jitter_ok" (function
     | [m; rates; cs; outs] -> show_bool (jit_ok (zv m) (zlist rates) (zlist outs))
-    | _ -> failwith "jitter_ok: arity")
+    | _ -> failwith "jitter_ok: arity");
+  reg "composed_bound_ok" (function
+    | [jn; jd; rr; md] -> show_bool (composed_bound_ok (zv jn) (zv jd) (zv rr) (zv md))
+    | _ -> failwith "composed_bound_ok: arity")
 let () = section register_c13
 
 (* ---- C17 / C01 *)
